@@ -105,6 +105,25 @@ static void uget(int query) {
   coap_delete_pdu(pdu);
 }
 
+/* ugetproxy <bytes> : coap_get_uri_path on a request that carries a Proxy-Uri option */
+static void ugetproxy(void) {
+  coap_pdu_t *pdu = coap_pdu_init(COAP_MESSAGE_CON, COAP_REQUEST_CODE_GET, 1, 60000);
+  size_t n;
+  uint8_t *b = exact_tok(vtok[1], &n);
+  coap_string_t *str;
+  if (!pdu || !coap_add_option(pdu, COAP_OPTION_PROXY_URI, n, b)) { puts("NOADD"); free(b); coap_delete_pdu(pdu); return; }
+  str = coap_get_uri_path(pdu);
+  if (!str) puts("null");
+  else {
+    fputs("path=", stdout);
+    full_hex(stdout, str->s, str->length);
+    fputc('\n', stdout);
+    coap_delete_string(str);
+  }
+  free(b);
+  coap_delete_pdu(pdu);
+}
+
 /* ucaps : which schemes this build supports */
 static void ucaps(void) {
   printf("caps=%d%d%d%d%d\n", coap_dtls_is_supported(), coap_tcp_is_supported(),
@@ -178,6 +197,7 @@ int main(void) {
     else if (!strcmp(vtok[0], "uqol") && vntok == 4) uoptlist(1);
     else if (!strcmp(vtok[0], "ugetp")) uget(0);
     else if (!strcmp(vtok[0], "ugetq")) uget(1);
+    else if (!strcmp(vtok[0], "ugetproxy") && vntok == 2) ugetproxy();
     else if (!strcmp(vtok[0], "ucaps")) ucaps();
     else if (!strcmp(vtok[0], "uspl") && vntok == 4) uspl();
     else if (!strcmp(vtok[0], "uinto") && vntok == 4) uinto();
